@@ -313,8 +313,8 @@ def one_cell(ctx, it, T, p, evt, sta, role, timer_running, kind, cell, label, st
     n = nxt[role] if isinstance(nxt, dict) else nxt
     ob('next', ops.values_equal(it, sm.fields['current_state'], sta_val(n)),
        expected='Sta%d' % n)
-    if ctx.pid == 'C05':
-        # provider-loop invariant Inv, preserved by every defined cell (C05): an idle provider holds no
+    if ctx.pid in ('C05', 'C13'):
+        # provider-loop invariant Inv, preserved by every defined cell (C05, C13): an idle provider holds no
         # connection, any other state does; ARTIM runs exactly in Sta2 (awaiting the first PDU) and
         # Sta13 (awaiting the peer's close)
         after_sock = provider.fields['dul_socket']
